@@ -154,7 +154,16 @@ pub fn sequential(rng: &mut gen::R, tables: usize, buckets: usize, style: usize,
         }
         // lookups: every key of the set
         let present: HashSet<u64> = new.values().flatten().copied().collect();
-        for q in keys.iter() {
+        // lookups in a fresh random order each time, sometimes only a few of them, sometimes none: a defect
+        // may depend on which key was looked up last before a later insert
+        let mut order: Vec<u64> = keys.clone();
+        order.shuffle(rng);
+        match rng.gen_range(0..4) {
+            0 => order.truncate(rng.gen_range(0..=2.min(order.len()))),
+            1 => order.truncate(order.len() / 2),
+            _ => {}
+        }
+        for q in order.iter() {
             let r = t.find(*q);
             rep.eval(1);
             match (present.contains(q), r) {
